@@ -42,6 +42,7 @@ def jobs(tier):
     J("multi", 2, dict(delims="one", cutoff=None), shard=5)
     J("multi", 2, dict(delims="one", cutoff=2), shard=5)
     J("multi", 1, dict(delims="default", cutoff=None, converter=True))
+    J("multi", 2, dict(delims="one", cutoff=2, converter=True), 900, 6)
     T_ = ("thorough",)
     J("multi", 2, dict(delims="default", cutoff=None), 3000, 8, T_)
     J("multi", 2, dict(delims="default", cutoff=2), 3000, 8, T_)
